@@ -252,16 +252,20 @@ func g6Draw(c *Ctx, directed bool) (int, [][]bool) {
 	return n, adj
 }
 
-func g6Build(n int, adj [][]bool, directed bool) graph.Graph {
+// g6Build builds the graph with the given adjacency over nodes whose IDs are
+// ids[0] < ids[1] < ...: "Encode returns a graph6 encoding of the topology of
+// the given graph using a lexical ordering of the nodes by ID to map them to
+// [0, n)".
+func g6Build(n int, adj [][]bool, directed bool, ids []int64) graph.Graph {
 	if directed {
 		g := simple.NewDirectedGraph()
 		for i := 0; i < n; i++ {
-			g.AddNode(simple.Node(i))
+			g.AddNode(simple.Node(ids[i]))
 		}
 		for u := 0; u < n; u++ {
 			for v := 0; v < n; v++ {
 				if adj[u][v] {
-					g.SetEdge(simple.Edge{F: simple.Node(u), T: simple.Node(v)})
+					g.SetEdge(simple.Edge{F: simple.Node(ids[u]), T: simple.Node(ids[v])})
 				}
 			}
 		}
@@ -269,12 +273,12 @@ func g6Build(n int, adj [][]bool, directed bool) graph.Graph {
 	}
 	g := simple.NewUndirectedGraph()
 	for i := 0; i < n; i++ {
-		g.AddNode(simple.Node(i))
+		g.AddNode(simple.Node(ids[i]))
 	}
 	for u := 0; u < n; u++ {
 		for v := u + 1; v < n; v++ {
 			if adj[u][v] {
-				g.SetEdge(simple.Edge{F: simple.Node(u), T: simple.Node(v)})
+				g.SetEdge(simple.Edge{F: simple.Node(ids[u]), T: simple.Node(ids[v])})
 			}
 		}
 	}
@@ -627,12 +631,48 @@ func g6CheckDamaged(c *Ctx, cd *g6Codec, what, d string, n0 int, truncated bool,
 func g6Run(c *Ctx, cd *g6Codec) *Violation {
 	t := c.T
 	n, adj := g6Draw(c, cd.directed)
-	c.Declare("header_4_byte_form", "damaged_string_still_valid", "damaged_string_invalid", "noncanonical_accepted", "substitution_exhaustive", "substitution_sampled")
+	c.Declare("node_ids_not_0_to_n-1", "negative_ids_with_largest_n-1", "header_4_byte_form", "damaged_string_still_valid", "damaged_string_invalid", "noncanonical_accepted", "substitution_exhaustive", "substitution_sampled")
+	// node IDs of the graph handed to Encode: 0..n-1, or any increasing
+	// sequence (negative, with gaps, far from zero)
+	ids := make([]int64, n)
+	for i := range ids {
+		ids[i] = int64(i)
+	}
+	switch t.Choose(simrt.KWorkload, 4) {
+	case 2:
+		if n > 0 {
+			id := int64(-t.Choose(simrt.KValue, n+3))
+			for i := range ids {
+				ids[i] = id
+				id += 1 + int64(t.Choose(simrt.KValue, 3)/2)
+			}
+			if t.Choose(simrt.KWorkload, 2) == 1 {
+				// the largest ID is n-1 as for 0..n-1, the others are not
+				shift := int64(n-1) - ids[n-1]
+				for i := range ids {
+					ids[i] += shift
+				}
+			}
+			c.Probe("node_ids_not_0_to_n-1", 1)
+			if ids[0] < 0 && ids[n-1] == int64(n-1) {
+				c.Probe("negative_ids_with_largest_n-1", 1)
+			}
+			c.Instance["node_ids"] = fmt.Sprint(ids)
+		}
+	case 3:
+		for i := range ids {
+			ids[i] = int64(i)*3 + 1<<40
+		}
+		if n > 0 {
+			c.Probe("node_ids_not_0_to_n-1", 1)
+			c.Instance["node_ids"] = fmt.Sprintf("%d + 3i", int64(1)<<40)
+		}
+	}
 	var s string
 	var encoded bool
 	var deferred *Violation
 	if v := c.Guard("Graph/control", func() string { return fmt.Sprintf("Encode of a graph of order %d (%v)", n, c.Instance) }, func() *Violation {
-		g := g6Build(n, adj, cd.directed)
+		g := g6Build(n, adj, cd.directed, ids)
 		s = cd.encode(g)
 		encoded = true
 		c.Case("control", true, hashString(s))
